@@ -143,13 +143,19 @@ def _atoms(g, rd, f):
     roles = {}
     for p in g.points:
         for (q, lab) in p.succ:
-            if not lab or not isinstance(lab[0], int) or lab[1] is not f:
+            if not lab or not isinstance(lab[0], int):
                 continue
-            if lab[0] in roles:
+            f = lab[1]
+            if (id(f), lab[0]) in roles:
                 continue
             core, pol = norm_cond(f, lab[0])
             cn = f.nodes[core]
             role = None
+            if cn['k'] == 'ref' and cn.get('sk') == 'local':
+                # a named boolean: classify what it was computed from
+                for (sf, sn, sc) in origins(g, rd, f, core, p.ctx):
+                    if sn['k'] == 'call' and sf is f:
+                        cn = sn
             if cn['k'] == 'call':
                 c = strip_targs(cn.get('c', ''))
                 ck_ = cn.get('ck', '')
@@ -173,33 +179,43 @@ def _atoms(g, rd, f):
                 elif c.endswith('trace::IsRootSpan'):
                     role = 'isRoot'
             if role:
-                roles[lab[0]] = (role, pol)
+                roles[(id(f), lab[0])] = (role, pol)
     return roles
 
 
 def _classify_def(g, rd, f, dp, vid):
+    """kinds of source the definition at dp gives variable vid (one per origin of the defining value; with an inlined helper the
+    origins are the helper's returns that reach under the given, possibly scenario-restricted, flow)"""
     val = None
     for (v, strong, vx) in defs_in_node(dp.f, dp.n):
         if v == vid:
             val = vx
     if val is None:
-        return 'none'
-    calls = set()
-    for (sf, sn, sc) in origins(g, rd, f, val, dp.ctx):
+        return set()
+    kinds = set()
+    for (sf, sn, sc) in origins(g, rd, dp.f, val, dp.ctx):
+        calls = set()
+        invalid = False
         for j in sf.subtree(sn['i']):
             m = sf.nodes[j]
             if m['k'] in ('call', 'construct'):
                 calls.add(strip_targs(m.get('c', '')) + '|' + (m.get('ck') or ''))
             if m['k'] == 'construct' and strip_targs(m.get('c', '')).endswith('SpanContext::SpanContext') and \
                     len(m.get('args', [])) == 2 and all(sf.nodes[a].get('v') == 0 for a in m['args']):
-                return 'invalid'
-    if any('get<opentelemetry::trace::SpanContext' in c for c in calls):
-        return 'explicit-span-context'
-    if any(c.split('|')[0].endswith('trace::GetSpan') for c in calls):
-        return 'span-of-explicit-context'
-    if any(c.split('|')[0].endswith('GetCurrentSpan') for c in calls):
-        return 'active-span'
-    return 'other:' + ','.join(sorted(c.split('|')[0].rsplit('::', 1)[-1] for c in calls))[:60]
+                invalid = True
+        if invalid:
+            kinds.add('invalid')
+        elif any('get<opentelemetry::trace::SpanContext' in c for c in calls):
+            kinds.add('explicit-span-context')
+        elif any(c.split('|')[0].endswith('trace::GetSpan') for c in calls):
+            kinds.add('span-of-explicit-context')
+        elif any(c.split('|')[0].endswith('GetCurrentSpan') for c in calls):
+            kinds.add('active-span')
+        elif sn['k'] == 'ref' and sn.get('sk') == 'param' and sc is not None and sc.call is not None:
+            continue   # an unbound parameter of an inlined helper: followed by origins already
+        else:
+            kinds.add('other:' + ','.join(sorted(c.split('|')[0].rsplit('::', 1)[-1] for c in calls))[:60])
+    return kinds
 
 
 SCENARIOS = [
@@ -213,7 +229,8 @@ SCENARIOS = [
 
 
 def rule_r2(ck, prog, f, rule='C05.R2'):
-    g = Graph(prog, f, inline=None, sync_lambdas=False)
+    from .common import same_class_inline
+    g = Graph(prog, f, inline=same_class_inline(prog, f.cls or ''), max_depth=2, sync_lambdas=False)
     rd = reaching_defs(g)
     atoms = _atoms(g, rd, f)
     have = {r for (r, _p) in atoms.values()}
@@ -234,16 +251,18 @@ def rule_r2(ck, prog, f, rule='C05.R2'):
     vid = pa['id']
     for (name, scen, expect) in SCENARIOS:
         def skip(a, b, lab, _scen=scen):
-            if not lab or not isinstance(lab[0], int) or lab[0] not in atoms:
+            if not lab or not isinstance(lab[0], int) or (id(lab[1]), lab[0]) not in atoms:
                 return False
-            role, pol = atoms[lab[0]]
+            role, pol = atoms[(id(lab[1]), lab[0])]
             if role not in _scen:
                 return False
             truth = lab[2] if pol else (not lab[2])
             return truth is not _scen[role]
         rds = reaching_defs(g, skip_edge=skip)
         defs = [g.points[d] for (v, d) in rds.get(sink.id, ()) if v == vid]
-        kinds = {_classify_def(g, rd, f, dp, vid) for dp in defs}
+        kinds = set()
+        for dp in defs:
+            kinds |= _classify_def(g, rds, f, dp, vid)
         kinds.discard('none')
         site = 'parent:%s' % name
         if kinds == expect:
